@@ -27,6 +27,7 @@ copy on every operation (an alias is taken in every iteration).  A control must 
 (L(n) far above the bound and B(4n)/B(n) > 6); if one does not, the monitor is blind for that group
 and every verdict of the group is reported inconclusive.
 """
+import time
 from .. import core
 
 RULE = ("cases = (family, aliasing variant, size n): families are loops of k~n in-place-eligible mutation statements "
@@ -46,9 +47,9 @@ ASSUMPTIONS = [
     "fuel/timeout/crash of a workload is inconclusive; sizes are bounded (quick n <= 8000, thorough n <= 131072, controls n <= 8000)",
 ]
 PLAN = {
-    "quick": {"sizes": [2000, 4000, 8000], "control_sizes": [2000, 8000], "mixtures": 32, "mix_bases": [2000], "shards": 16},
+    "quick": {"sizes": [2000, 4000, 8000], "control_sizes": [1000, 4000], "mixtures": 32, "mix_bases": [1000], "shards": 16},
     "thorough": {"sizes": [1000, 2000, 4000, 8000, 16000, 32000, 64000, 128000], "control_sizes": [1000, 2000, 4000, 8000],
-                 "mixtures": 320, "mix_bases": [1000, 2000, 4000, 8000, 16000, 32000], "shards": 16},
+                 "mixtures": 320, "mix_bases": [1000, 2000, 4000, 8000, 16000], "shards": 16},
 }
 REG = dict(level="exploration", min_nontrivial=400, min_nontrivial_thorough=2000, max_inconc=0.02,
            technique="allocation-scaling runtime monitor: exact counting allocator around one loop statement per (family, aliasing variant, size), measured payload threshold, Rc strong-count precondition, copying control programs as sensitivity self-check",
@@ -66,7 +67,7 @@ RATIO_MAX = 6.0
 
 class Fam:
     def __init__(self, name, group, setup, loop, probe_src="x", kind="l", depth=0, alias_depth=0,
-                 C=1, rows_alias=None, control=False, max_n=None, inner=None, holders_mutate=None, min_n=0):
+                 C=1, control=False, max_n=None, inner=None, holders_mutate=None, div=1, dyn_holders=0):
         self.name = name
         self.group = group
         self.setup = setup                  # list of statement templates (@N = n, @R = n // 4)
@@ -80,7 +81,8 @@ class Fam:
         self.max_n = max_n
         self.inner = inner                  # (alias statement, depth) for the inner-row alias variant
         self.holders_mutate = holders_mutate  # loop template for the "every holder mutates" variant
-        self.min_n = min_n
+        self.div = div                      # the family runs at n // div elements (keeps the observation dumps small)
+        self.dyn_holders = dyn_holders      # aliases the loop itself takes (each may cost one more copy)
 
 
 def subst(t, n):
@@ -97,8 +99,8 @@ DICT = ["x := {}", "for (i <- 0 til @N) x[i] = i"]
 DICTDEF = ["x := {:0}", "for (i <- 0 til @N) x[i] = i"]
 DICTLISTS = ["x := {}", "for (i <- 0 til @N) x[i] = [i]"]
 VEC = ["x := vector(0 til @N)"]
-BYTES = ["x := bytes((0 til @M) map (\\i -> i % 251))"]
-STR = ["x := \"abcdefgh\" ** @N2"]            # 16 n bytes
+BYTES = ["x := bytes([7] ** @M)"]
+STR = ["x := \"abcdefgh\" $* @N2"]            # 16 n bytes
 STRUCT = ["struct S (fa, fb)", "x := S(list(0 til @N), [1, 2])"]
 FOR = "for (i <- 0 til @N) "
 FORR = "for (i <- 0 til @R) "
@@ -119,6 +121,8 @@ fam("list_opidx_add", "list1", LIST, FOR + "x[i] += 3")
 fam("list_opidx_max", "list1", LIST, FOR + "x[i] max= 7")
 fam("list_opidx_user", "list1", LIST + ["__g := \\a, b -> a * 2 + b"], FOR + "x[i] __g= i")
 fam("list_while_set", "list1", LIST + ["__i := 0"], "while (__i < @N) (x[__i] = 5; __i += 1)")
+# the loop itself takes an alias four times (and drops the previous one): one copy per alias is allowed
+fam("list_realias4", "list1", LIST + ["__c := null"], FOR + "(if (i % @R == 0) __c = x; x[i] = i + 1)", dyn_holders=4)
 fam("ctl_list_set", "list1", LIST + ["__c := null"], FOR + "(__c = x; x[i] = i + 1)", control=True)
 
 fam("list_append", "list2", LIST, FOR + "x append= i", holders_mutate=FOR + "(x append= 1; __y1 append= 2; __y2 append= 3)")
@@ -145,28 +149,29 @@ fam("ctl_rows_set", "rows", ROWS + ["__c := null"], FORR + "(__c = x; x[i][1] = 
 
 # --- nested rows: four big rows (payload = one row buffer, C = 4 collections)
 BIG_INNER = ("__r := x[1]", 1)
-fam("bigrows_set", "bigrows", BIGROWS, FOR + "x[i % 4][i] = i", probe_src="x[0]", depth=1, C=4, inner=BIG_INNER)
-fam("bigrows_opidx", "bigrows", BIGROWS, FOR + "x[i % 4][i] += 1", probe_src="x[0]", depth=1, C=4, inner=BIG_INNER)
-fam("bigrows_append", "bigrows", BIGROWS, FOR + "x[i % 4] append= i", probe_src="x[0]", depth=1, C=4, inner=BIG_INNER)
-fam("bigrows_pop", "bigrows", BIGROWS, FOR + "pop x[i % 4]", probe_src="x[0]", depth=1, C=4, inner=BIG_INNER)
-fam("ctl_bigrows_set", "bigrows", BIGROWS + ["__c := null"], FOR + "(__c = x[i % 4]; x[i % 4][i] = i)", probe_src="x[0]",
+fam("bigrows_set", "bigrows", BIGROWS, FOR + "x[i % 4][i] = i", probe_src="x[0]", div=2, depth=1, C=4, inner=BIG_INNER)
+fam("bigrows_opidx", "bigrows", BIGROWS, FOR + "x[i % 4][i] += 1", probe_src="x[0]", div=2, depth=1, C=4, inner=BIG_INNER)
+fam("bigrows_append", "bigrows", BIGROWS, FOR + "x[i % 4] append= i", probe_src="x[0]", div=2, depth=1, C=4, inner=BIG_INNER)
+fam("bigrows_pop", "bigrows", BIGROWS, FOR + "pop x[i % 4]", probe_src="x[0]", div=2, depth=1, C=4, inner=BIG_INNER)
+fam("ctl_bigrows_set", "bigrows", BIGROWS + ["__c := null"], FOR + "(__c = x[i % 4]; x[i % 4][i] = i)", probe_src="x[0]", div=2,
     depth=1, C=4, control=True)
 
 # --- dicts
-fam("dict_set_existing", "dict1", DICT, FOR + "x[i] = i + 1", kind="d",
+fam("dict_set_existing", "dict1", DICT, FOR + "x[i] = i + 1", kind="d", div=4,
     holders_mutate=FOR + "(x[i] = 1; __y1[i] = 2; __y2[i] = 3)")
-fam("dict_set_new", "dict1", DICT, FOR + "x[@N + i] = i", kind="d")
-fam("dict_op_default_existing", "dict1", DICTDEF, FOR + "x[i] += 1", kind="d")
-fam("dict_op_default_new", "dict1", DICTDEF, FOR + "x[@N + i] += 1", kind="d")
-fam("ctl_dict_set", "dict1", DICT + ["__c := null"], FOR + "(__c = x; x[i] = i + 1)", kind="d", control=True)
+fam("dict_set_new", "dict1", DICT, FOR + "x[@N + i] = i", kind="d", div=4)
+fam("dict_opidx_existing", "dict1", DICT, FOR + "x[i] += 2", kind="d", div=4)
+fam("dict_op_default_existing", "dict1", DICTDEF, FOR + "x[i] += 1", kind="d", div=4)
+fam("dict_op_default_new", "dict1", DICTDEF, FOR + "x[@N + i] += 1", kind="d", div=4)
+fam("ctl_dict_set", "dict1", DICT + ["__c := null"], FOR + "(__c = x; x[i] = i + 1)", kind="d", div=4, control=True)
 
-fam("dict_add_key", "dict2", DICT, FOR + "x |.= @N + i", kind="d")
-fam("dict_merge", "dict2", DICT, FOR + "x ||= {(@N + i): i}", kind="d")
-fam("dict_discard", "dict2", DICT, FOR + "x -.= i", kind="d")
-fam("dict_add_discard", "dict2", DICT, FOR + "(x |.= @N + i; x -.= @N + i)", kind="d")
-fam("dict_lists_append", "dict2", DICTLISTS, FOR + "x[i] append= 1", kind="d", depth=1)
-fam("dict_lists_set", "dict2", DICTLISTS, FOR + "x[i][0] = 7", kind="d", depth=1)
-fam("ctl_dict_add_key", "dict2", DICT + ["__c := null"], FOR + "(__c = x; x |.= @N + i)", kind="d", control=True)
+fam("dict_add_key", "dict2", DICT, FOR + "x |.= @N + i", kind="d", div=4)
+fam("dict_merge", "dict2", DICT, FOR + "x ||= {(@N + i): i}", kind="d", div=4)
+fam("dict_discard", "dict2", DICT, FOR + "x -.= i", kind="d", div=4)
+fam("dict_add_discard", "dict2", DICT, FOR + "(x |.= @N + i; x -.= @N + i)", kind="d", div=4)
+fam("dict_lists_append", "dict2", DICTLISTS, FOR + "x[i] append= 1", kind="d", div=4, depth=1)
+fam("dict_lists_set", "dict2", DICTLISTS, FOR + "x[i][0] = 7", kind="d", div=4, depth=1)
+fam("ctl_dict_add_key", "dict2", DICT + ["__c := null"], FOR + "(__c = x; x |.= @N + i)", kind="d", div=4, control=True)
 
 # --- vectors
 fam("vec_set", "vec", VEC, FOR + "x[i] = i + 1", kind="v")
@@ -180,7 +185,7 @@ fam("bytes_set", "bytes", BYTES, FOR + "x[i * 16] = 7", kind="b")
 fam("bytes_opidx", "bytes", BYTES, FOR + "x[i * 16] max= 9", kind="b")
 fam("bytes_append", "bytes", BYTES, FOR + "x append= 7", kind="b")
 fam("bytes_concat", "bytes", BYTES, FOR + "x ++= B[1, 2]", kind="b")
-fam("str_set", "bytes", STR, FOR + "x[i * 16] = \"z\"", kind="s", max_n=8000)
+fam("str_set", "bytes", STR, FOR + "x[i * 16] = \"z\"", kind="s", max_n=16000)
 fam("ctl_bytes_set", "bytes", BYTES + ["__c := null"], FOR + "(__c = x; x[i * 16] = 7)", kind="b", control=True)
 fam("ctl_str_set", "bytes", STR + ["__c := null"], FOR + "(__c = x; x[i * 16] = \"z\")", kind="s", control=True)
 
@@ -224,6 +229,9 @@ def variants_for(f, tier):
           ("box", ["__b := [x, 1]"], 1, {"alias": 2}, f.loop),
           ("alk", ["__y1 := x", "__y2 := x", "__b := {0: x}"], 3, {"alias": 4}, f.loop),
           ("rel", ["__y := x", "__b := [x, x]", "__y = null", "__b = null"], 0, {"alias": 1}, f.loop)]
+    if tier == "thorough":
+        # the other order: the first-made reference lives on under another name, the loop mutates the later-made one
+        vs.append(("al1b", ["__o := x", "x = null", "x = __o"], 1, {"alias": 2}, f.loop))
     if f.inner:
         stmt, d = f.inner
         vs.append(("inner", [stmt], 1, {"alias": 1, "inner": (d, 1)}, f.loop))
@@ -263,6 +271,8 @@ def check_precondition(shinfo, depth, alias_depth, expect):
     nodes = [e for e in shinfo if e[0] <= depth and e[1] in ("l", "d", "v", "b", "s")]
     if not nodes:
         return "no container node"
+    if expect.get("kind") and nodes[0][1] != expect["kind"]:
+        return "outermost node is of kind %s, wanted %s" % (nodes[0][1], expect["kind"])
     if not any(e[0] == depth for e in nodes):
         return "no node at depth %d" % depth
     inner = expect.get("inner")
@@ -556,10 +566,13 @@ def run_group(sh, w, gname, ctx, cache):
         sizes = ctx.plan["control_sizes"] if f.control else ctx.plan["sizes"]
         for (vname, extra, H, expect, loop) in variants_for(f, ctx.tier):
             for n in sizes:
+                n = n // f.div
                 if f.max_n and n > f.max_n:
                     sh.count("skipped:size-cap")
                     continue
-                Hc = H * f.C if (vname in ("al1", "box", "alk") and f.C > 1) else H
+                Hc = (H * f.C if (vname in ("al1", "box", "alk", "al1b") and f.C > 1) else H) + f.dyn_holders
+                if f.probe_src == "x":
+                    expect = dict(expect, kind=f.kind)
                 exec_case(sh, w, grp, f.name, f.name, vname, n, f.setup, extra, loop,
                           [(f.setup, f.probe_src, f.kind, ("fam", f.name))],
                           [("x", f.depth, f.alias_depth, expect)], Hc, f.C, f.control, cache)
@@ -567,20 +580,43 @@ def run_group(sh, w, gname, ctx, cache):
     grp.decide()
 
 
+def plan_shards(n, mixtures):
+    """-> per shard (list of group names, number of mixtures).  Groups (each with its own controls) are dealt
+    round-robin; the mixtures go preferentially to the shards that have fewer groups (a group costs about
+    as much as GROUP_WEIGHT mixtures)."""
+    groups = [[] for _ in range(n)]
+    for gi, g in enumerate(GROUPS):
+        groups[gi % n].append(g)
+    load = [GROUP_WEIGHT * len(g) for g in groups]
+    mix = [0] * n
+    for _ in range(mixtures):
+        i = min(range(n), key=lambda j: (load[j], j))
+        mix[i] += 1
+        load[i] += 1
+    return list(zip(groups, mix))
+
+
+GROUP_WEIGHT = 4
+
+
 def shard(ctx, si, n):
     sh = core.Shard("C02")
     w = core.Worker(cpu_budget=120.0)
     cache = {}
     try:
-        # groups of families (each with its own controls) are dealt round-robin; the mixtures are split evenly
-        for gi, g in enumerate(GROUPS):
-            if gi % n == si:
-                run_group(sh, w, g, ctx, cache)
-        r = core.rng_for("C02", ctx.seed, si)
-        total = ctx.plan["mixtures"]
-        mine = total // n + (1 if si < total % n else 0)
+        groups, mine = plan_shards(n, ctx.plan["mixtures"])[si]
+
+        def cpu():
+            return time.process_time() + (core._cpu_seconds(w.p.pid) or 0.0)
+        for g in groups:
+            c0 = cpu()
+            run_group(sh, w, g, ctx, cache)
+            sh.count("cpu_ms:group:" + g, int(1000 * (cpu() - c0)))
         if mine:
+            c0 = cpu()
+            r = core.rng_for("C02", ctx.seed, si)
             run_mixtures(sh, w, r, mine, ctx.plan["mix_bases"], cache, ctx.plan["control_sizes"])
+            sh.count("cpu_ms:mixtures", int(1000 * (cpu() - c0)))
     finally:
         w.close()
     return sh
